@@ -12,6 +12,8 @@ import (
 
 func init() {
 	scenarios["unflushed-ack"] = scenUnflushedAck
+	scenarios["stale-candidate"] = scenStaleCandidate
+	scenarios["stale-suffix-install"] = scenStaleSuffixInstall
 }
 
 // waitFor polls cond every hb/4 for at most n heartbeat timeouts.
@@ -103,5 +105,122 @@ func scenUnflushedAck(e *engineA) error {
 	e.cl.recoverCrashed()
 	e.startClients(2, map[string]int{"update": 1})
 	e.sleepHB(4, 8)
+	return e.finish()
+}
+
+// staleTail isolates leader l and makes it append k entries it can never
+// commit; returns the node the others elected.
+func (e *engineA) staleTail(l *Node, k, pad int) (*Node, error) {
+	e.rc.emit(&ev.Rec{K: "fault", Op: "isolate-leader-with-stale-tail", Nid: l.nid})
+	e.isolate(l, true)
+	for i := 0; i < k; i++ {
+		go e.cl.fsmOpPad(3, l, "update", pad)
+	}
+	fs := e.others(l)
+	var nl *Node
+	ok := e.waitFor(80, func() bool {
+		for _, f := range fs {
+			if info, ok := f.info(false); ok && info.State == raft.Leader {
+				nl = f
+				return true
+			}
+		}
+		return false
+	})
+	if !ok {
+		return nil, fmt.Errorf("the majority side elected no leader")
+	}
+	return nl, nil
+}
+
+// scenStaleCandidate (C02, leader completeness): an isolated ex-leader with
+// a long uncommitted tail of an old term campaigns against a voter that holds
+// fewer entries, the last of which is committed and of a newer term.
+func scenStaleCandidate(e *engineA) error {
+	e.prof = profiles["general"]
+	if err := e.boot(3); err != nil {
+		return err
+	}
+	e.cl.startInfoSampler(e.hb() / 2)
+	l := e.cl.leader()
+	if l == nil {
+		return fmt.Errorf("no leader")
+	}
+	for i := 0; i < 4; i++ {
+		e.cl.fsmOp(1, l, "update")
+	}
+	nl, err := e.staleTail(l, 12+e.rng.Intn(12), 0)
+	if err != nil {
+		return err
+	}
+	// a few committed entries of the new term (fewer than the stale tail)
+	for i := 0; i < 1+e.rng.Intn(3); i++ {
+		if r := e.cl.fsmOp(1, nl, "update"); !r.ok {
+			break
+		}
+	}
+	e.sleepHB(1, 2)
+	// the new leader goes away; the remaining voter meets the stale candidate
+	e.rc.emit(&ev.Rec{K: "fault", Op: "stop-new-leader-heal-stale", Nid: nl.nid})
+	nl.shutdown(30 * time.Second)
+	e.isolate(l, false)
+	e.waitFor(60, func() bool { return e.cl.leader() != nil })
+	e.startClients(2, map[string]int{"update": 3, "read": 1})
+	e.sleepHB(4, 8)
+	if _, err := e.cl.start(nl.nid, nl.dir); err != nil {
+		e.rc.emit(&ev.Rec{K: "restart-failed", Cid: e.cl.cid, Nid: nl.nid, Err: err.Error()})
+	}
+	e.sleepHB(3, 6)
+	return e.finish()
+}
+
+// scenStaleSuffixInstall (C03 / C09 / C04): a node holding an uncommitted
+// suffix of an old term that covers the snapshot index is brought up to date
+// by snapshot installation.
+func scenStaleSuffixInstall(e *engineA) error {
+	e.prof = profiles["general"]
+	if err := e.boot(3); err != nil {
+		return err
+	}
+	e.cl.startInfoSampler(e.hb() / 2)
+	l := e.cl.leader()
+	if l == nil {
+		return fmt.Errorf("no leader")
+	}
+	for i := 0; i < 4; i++ {
+		e.cl.fsmOp(1, l, "update")
+	}
+	stale := 10 + e.rng.Intn(15)
+	nl, err := e.staleTail(l, stale, 0)
+	if err != nil {
+		return err
+	}
+	// the new leader commits entries beyond the stale tail, with payloads that
+	// make its log roll over small segments, snapshots and compacts
+	n := stale/2 + e.rng.Intn(stale)
+	for i := 0; i < n; i++ {
+		if r := e.cl.fsmOpPad(1, nl, "update", 150+e.rng.Intn(200)); !r.ok {
+			break
+		}
+	}
+	// let the new leader notice that the isolated node is unreachable: only
+	// then does it compact without waiting for it
+	e.sleepHB(4, 5)
+	e.rc.emit(&ev.Rec{K: "fault", Op: "snapshot-on-new-leader", Nid: nl.nid})
+	e.cl.takeSnapshot(nl, 0)
+	for _, f := range e.others(l) {
+		if f != nl {
+			e.cl.takeSnapshot(f, 0)
+		}
+	}
+	// wait for the compaction handshake
+	e.waitFor(30, func() bool {
+		info, ok := nl.info(false)
+		return ok && info.FirstLogIndex > 6
+	})
+	e.rc.emit(&ev.Rec{K: "fault", Op: "heal", Nid: l.nid})
+	e.isolate(l, false)
+	e.startClients(2, map[string]int{"update": 3, "read": 1})
+	e.sleepHB(6, 12)
 	return e.finish()
 }
